@@ -109,6 +109,7 @@ def step (st : St) (t : List String) : St × String :=
       if !st.s.alive o then (st, "bad-op") else hostOk st s!"r={getTargetnameIndex st.s o n}" st.s
     | _, _ => (st, "bad-op")
   -- script level: `s <hex of the rendered script> ## <abstract statement>`
+  | ["s", _, "##", "init"] => (st, s!"ok out=[] {dump st.s}")
   | "s" :: _ :: "##" :: rest =>
     match parseStmt rest with
     | none => (st, "bad-op")
